@@ -45,7 +45,7 @@ Step(o) ==
      /\ g' = GNext(g, ev)
      /\ viol' = viol \cup {<<m, Key(m, g, ev)>> : m \in Failing(g, ev)}
      /\ hist' = Append(hist, o @@ [exp |-> ev.res])
-Next == \E o \in Ops : Step(o)
+Next == Len(hist) < Depth /\ \E o \in Ops : Step(o)
 Bound == Len(hist) <= Depth
 EmitReplay == Emit => PrintT(<<"REPLAY", ToJson(hist')>>)
 NoViolation == viol = {}
